@@ -1223,6 +1223,11 @@ func (x *Exec) capturedVar(st *State, o *types.Var) Term {
 	n := x.d.constant(name, so)
 	t := Term{S: n, Sort: so, T: o.Type()}
 	st.vars[o] = t
+	if x.prog.LateBound[o] != nil {
+		// bound exactly once, to a function literal, before any closure reading it can run (A-late)
+		x.assumed["A-late: closure variable "+o.Name()+" is assigned its function literal before any closure reading it is invoked"] = true
+		st.assume(sNot(sEq(n, "nilF")))
+	}
 	x.noteRead(st, t)
 	x.ifaceWellTyped(st, t, o.Type())
 	return t
